@@ -394,6 +394,10 @@ fn aux_env_letters() -> Vec<Letter> {
         al.push(Letter::one(u(Some(id), "CAL", "TERMOSOLAR", &k(&[1, 1]))));
         al.push(Letter::one(p(Some(id), "EAMBIENTE", &k(&[1, 3]))));
     }
+    // a reversible heat pump with auxiliaries: heating delivered, cooling absorbed (negative output)
+    al.push(Letter::many(vec![o(7, "REF", &[-300, -500]), o(7, "CAL", &k(&[3, 1])), a(Some(7), &k(&[2, 2])), u(Some(7), "CAL", "ELECTRICIDAD", &k(&[3, 1])), u(Some(7), "REF", "ELECTRICIDAD", &k(&[1, 3]))]));
+    // one EPB service and a non-EPB use on the same system, with auxiliaries and the declared output
+    al.push(Letter::many(vec![a(Some(8), &k(&[1, 1])), u(Some(8), "CAL", "GASNATURAL", &k(&[3, 1])), u(Some(8), "NEPB", "ELECTRICIDAD", &k(&[1, 1])), o(8, "CAL", &k(&[2, 1]))]));
     // a system whose declared production balances its use exactly, next to systems that need completion
     al.push(Letter::many(vec![u(Some(1), "CAL", "EAMBIENTE", &k(&[3, 1])), p(Some(1), "EAMBIENTE", &k(&[3, 1]))]));
     al.push(Letter::many(vec![u(Some(5), "ACS", "TERMOSOLAR", &k(&[1, 3])), p(Some(5), "TERMOSOLAR", &k(&[1, 3]))]));
